@@ -95,6 +95,9 @@ def r2_identity_from_source_pipe(chk):
         if lookup is None:
             r.bad(cfg, "anchor|identity lookup", "-", "no RouterSocket method taking (usize, FrameBatch) fed from recv_logical_finalized was found")
             continue
+        # the receive-side map: the DashMap<usize, Blob> field of RouterSocket (found by type, not by name)
+        adt_rs = prog.facts.adts.get("socket::router_socket::RouterSocket") or {"variants": []}
+        shared_map = next((x["name"] for v in adt_rs["variants"] for x in v["fields"] if re.search(r"DashMap<usize, message::blob::Blob", x["ty"])), "pipe_to_identity_shared_map")
         # (b) inside the lookup: the identity returned with the payload is map[pipe param] or placeholder(pipe param)
         names, _ = lookup.names
         pid_name = names.get(2, "?")
@@ -108,9 +111,9 @@ def r2_identity_from_source_pipe(chk):
             n_ret += 1
             ident = lookup.provenance_all(org[1]["r"]["ops"][0])
             key = "%s|returned identity#%d is the source pipe's" % (short(lookup.path), n_ret)
-            want = "DashMap::get(self.pipe_to_identity_shared_map, %s)" % pid_name
+            want = "DashMap::get(self.%s, %s)" % (shared_map, pid_name)
             if want in ident:
-                r.ok(cfg, key, where(lookup, b), "identity = pipe_to_identity_shared_map[%s] (or its fallback)" % pid_name)
+                r.ok(cfg, key, where(lookup, b), "identity = %s[%s] (or its fallback)" % (shared_map, pid_name))
             else:
                 r.bad(cfg, key, where(lookup, b), "the identity returned with the payload is `%s`, not the entry of pipe_to_identity_shared_map for the pipe the batch came from (`%s`)" % (ident[:200], pid_name))
         # fallbacks: every placeholder built on this path is the placeholder of the same pipe
@@ -143,7 +146,7 @@ def r2_identity_from_source_pipe(chk):
             reg = [c for c in body.calls if c.matches(r"RouterMap::(add_peer|update_peer_identity)$")]
             if not reg:
                 continue
-            ins = [c for c in body.calls if c.name == "insert" and "DashMap" in c.callee and (c.recv() or "").endswith("pipe_to_identity_shared_map")]
+            ins = [c for c in body.calls if c.name == "insert" and "DashMap" in c.callee and (c.recv() or "").endswith("." + shared_map)]
             key = "%s|send-side and receive-side identity registered together" % short(body.root)
             if not ins:
                 r.bad(cfg, key, where(body, reg[0].blk), "the identity is registered in the RouterMap (send side) but pipe_to_identity_shared_map (receive prefix) is not updated: messages from this peer keep the old prefix")
@@ -216,10 +219,19 @@ def r6_forward_entry_removed_by_owner(chk):
                     if t["k"] != "switch" or body.blocks[s_]["cleanup"] or is_plumbing(t):
                         continue
                     a, _pol = body.switch_atom(s_)
-                    if a[0] != "cmp" or a[1] not in ("Eq", "Ne"):
+                    pairs_ = []
+                    if a[0] == "cmp" and a[1] in ("Eq", "Ne"):
+                        pairs_.append((a[2], a[3]))
+                    elif a[0] == "place" and not a[2]["pr"]:
+                        # `let other = match .. { Some(i) => i.owner != me, None => false }; if other {..}`: the comparison is one definition of the tested bool
+                        for d_ in body.whole_defs(a[2]["l"]):
+                            if d_[0] == "assign" and d_[3]["r"]["k"] == "binop" and d_[3]["r"]["op"] in ("Eq", "Ne"):
+                                pairs_.append((d_[3]["r"]["a"], d_[3]["r"]["b"]))
+                    if not pairs_:
                         continue
-                    sx, sy = body.data_slice(a[2]), body.data_slice(a[3])
-                    both = sx | sy
+                    both = set()
+                    for x_, y_ in pairs_:
+                        both |= body.data_slice(x_) | body.data_slice(y_)
                     owner_side = any(x[0] == "call" and x[1].endswith("HashMap::get") for x in both) or any(x[0] == "place" and "identity_to_peer_info" in x[1] for x in both)
                     mine_side = any(x[0] == "place" and re.match(r"^(pipe_read_id|endpoint_uri|\w*pipe\w*|\w*uri\w*)$", x[1]) for x in both) or any(x[0] == "param" for x in both)
                     if not (owner_side and mine_side):
